@@ -11,6 +11,16 @@ package main
 //	op     = G!path | S!path!value | C!path!<op>!<hexright> | L!path | K!path | O!path!<-|n>
 //	       | Y | T!value | R | D          path = k<hex>/k<hex>...
 //
+// Holders sharing map objects (input starts with '#'):
+//
+//	case   = #value#value... ; hop ; hop ...      the values are holders 0, 1, ...
+//	hop    = g!i!path (holder := Get(h[i]))  | s!i!path!h<j> | s!i!path!value (Set of what h[j] holds / of a value)
+//	       | l!i!path (Length) | r!i (Reset) | y!i (holder := Copy(h[i])) | t!i!j (CopyTo(h[i], h[j]))
+//	       | w!i!<V|P|Q> (holder := the map h[i] holds, in that form; built here, not by the inspector)
+//
+// after every hop the result and the dump of EVERY holder are printed: <result>;<holder 0>;<holder 1>;...
+// (a dump that is the same text as after the previous hop is written "=")
+//
 // Observations print a nil holder as the empty map of its form, keys sorted,
 // never an address.  Memory sharing (Copy, CopyTo, Set) is observed natively
 // from the address ranges of maps, pointer cells, strings and byte slices.
@@ -228,9 +238,30 @@ func c18entries(m sam) string {
 	return sb.String()
 }
 
+// maps on the way from the value being printed to the current node: a map that
+// contains itself is printed as {CYCLE} once and noted in c18cyclic (no history
+// of the modelled domain builds one; a changed inspector may)
+var (
+	c18stack  []uintptr
+	c18cyclic bool
+)
+
 func c18print(v any) string {
 	if m, form, ok := c18holder(v); ok {
-		return "m" + form + c18entries(m)
+		if m == nil {
+			return "m" + form + "{}"
+		}
+		p := reflect.ValueOf(m).Pointer()
+		for _, q := range c18stack {
+			if q == p {
+				c18cyclic = true
+				return "m" + form + "{CYCLE}"
+			}
+		}
+		c18stack = append(c18stack, p)
+		s := "m" + form + c18entries(m)
+		c18stack = c18stack[:len(c18stack)-1]
+		return s
 	}
 	switch x := v.(type) {
 	case nil:
@@ -365,6 +396,9 @@ func c18err(err error) string {
 // ---------------------------------------------------------------- the run
 func runC18(input string) string {
 	parts := strings.Split(input, ";")
+	if strings.HasPrefix(parts[0], "#") {
+		return runC18Share(parts)
+	}
 	state := c18value(parts[0])
 	var ins inspector.StringAnyMapInspector
 	var obs []string
@@ -503,6 +537,108 @@ func runC18(input string) string {
 			}
 		default:
 			panic("bad op " + o)
+		}
+	}
+	return strings.Join(obs, "|")
+}
+
+// ---------------------------------------------------------------- holders sharing map objects
+func c18length(ins inspector.StringAnyMapInspector, x any, path []string) string {
+	r0, r1 := -1, -2
+	err := ins.Length(x, &r0, path...)
+	_ = ins.Length(x, &r1, path...)
+	switch {
+	case err != nil:
+		return c18err(err)
+	case r0 != r1:
+		return "none"
+	}
+	return "n=" + strconv.Itoa(r0)
+}
+
+func runC18Share(parts []string) string {
+	var hs []any
+	for _, v := range strings.Split(parts[0], "#")[1:] {
+		hs = append(hs, c18value(v))
+	}
+	var ins inspector.StringAnyMapInspector
+	var obs, prev []string
+	idx := func(s string) int {
+		n, err := strconv.Atoi(s)
+		if err != nil || n < 0 || n >= len(hs) {
+			panic("bad holder " + s)
+		}
+		return n
+	}
+	for _, o := range parts[1:] {
+		f := strings.Split(o, "!")
+		var res string
+		switch f[0] {
+		case "g":
+			v, err := ins.Get(hs[idx(f[1])], c18path(f[2])...)
+			switch {
+			case err != nil:
+				res = c18err(err)
+				v = nil
+			case v == nil:
+				res = "none"
+			default:
+				res = "v=" + c18print(v)
+			}
+			hs = append(hs, v)
+		case "s":
+			var val any
+			if strings.HasPrefix(f[3], "h") {
+				val = hs[idx(f[3][1:])]
+			} else {
+				val = c18value(f[3])
+			}
+			res = c18err(ins.Set(hs[idx(f[1])], val, c18path(f[2])...))
+		case "l":
+			res = c18length(ins, hs[idx(f[1])], c18path(f[2]))
+		case "r":
+			res = c18err(ins.Reset(hs[idx(f[1])]))
+		case "y":
+			c, err := ins.Copy(hs[idx(f[1])])
+			res = c18err(err)
+			hs = append(hs, c)
+		case "t":
+			var buf inspector.ByteBuffer
+			res = c18err(ins.CopyTo(hs[idx(f[1])], hs[idx(f[2])], &buf))
+		case "w":
+			var v any
+			if m, _, ok := c18holder(hs[idx(f[1])]); ok {
+				switch f[2] {
+				case "V":
+					v = m
+				case "P":
+					v = &m
+				default:
+					pm := &m
+					v = &pm
+				}
+			}
+			hs = append(hs, v)
+			res = "w"
+		default:
+			panic("bad op " + o)
+		}
+		cur := make([]string, len(hs))
+		for i, h := range hs {
+			cur[i] = c18print(h)
+			if i < len(prev) && prev[i] == cur[i] {
+				res += ";="
+			} else {
+				res += ";" + cur[i]
+			}
+		}
+		prev = cur
+		obs = append(obs, res)
+		if c18cyclic {
+			// a map now contains itself: the inspector's recursions need not terminate on it
+			c18cyclic = false
+			obs = append(obs, "abandoned:cyclic")
+			break
 		}
 	}
 	return strings.Join(obs, "|")
